@@ -10,10 +10,10 @@ import (
 
 // EditDesc describes one applied edit (for evidence and replay files).
 type EditDesc struct {
-	Class  string `json:"class"`            // edit class, e.g. "comment.block", "comma.tmpl.array"
-	Tok    int    `json:"tok"`              // anchoring token index in the text the edit was applied to
-	Off    int    `json:"off"`              // byte offset of the edit in that text
-	Arg    string `json:"arg,omitempty"`    // inserted text / chosen names
+	Class  string `json:"class"`             // edit class, e.g. "comment.block", "comma.tmpl.array"
+	Tok    int    `json:"tok"`               // anchoring token index in the text the edit was applied to
+	Off    int    `json:"off"`               // byte offset of the edit in that text
+	Arg    string `json:"arg,omitempty"`     // inserted text / chosen names
 	InExpr bool   `json:"in_expr,omitempty"` // the site lies inside an expression or template list
 }
 
